@@ -233,4 +233,12 @@ theorem go_ltrimClamp (s e n : BitVec 64) (hn : 0 ≤ n.toInt) :
   simp only [vS2, vS1, vE1, decide_eq_true_eq]
   split_ifs <;> simp_all
 
+theorem toInt_add_wrap (a b : BitVec 64) : (a + b).toInt = wrap64 (a.toInt + b.toInt) := by
+  have ha := BitVec.toInt_lt (x := a); have ha' := BitVec.le_toInt (x := a)
+  have hb := BitVec.toInt_lt (x := b); have hb' := BitVec.le_toInt (x := b)
+  rw [BitVec.toInt_add, Int.bmod_def]
+  unfold wrap64 twoP63 twoP64
+  simp at *
+  split_ifs <;> omega
+
 end RedisEmu
